@@ -47,4 +47,7 @@ func init() {
 	specs["C03"] = &PropSpec{Level: "exploration", QuickRuns: 150, ThorRuns: 2400, Wall: 240 * time.Second, MaxProcs: 2, Modes: []string{"mixed", "sfu", "two"},
 		Rule:   "mode mixed: invariants over generated commit/rollback runs (row diff of every committed local transaction within the lock keys the coordinator decoded for that branch; one key text per row over the run); mode sfu: generated SELECT ... FOR UPDATE statements inside a global transaction with the coordinator answering lockable / not lockable; mode two: 2-3 actors run global transactions of updates/deletes over the same 2-3 rows, every interleaving of statements, registrations and replies chosen by the tape, coordinator granting locks from its table; distinct = statement / mode signatures",
 		Assume: atAssume}
+	specs["C09"] = &PropSpec{Level: "exploration", QuickRuns: 160, ThorRuns: 3000, Wall: 240 * time.Second, MaxProcs: 2,
+		Rule:   "run = C01-style schema and programs with data validation on; after the local commits a foreign writer (bare connection, no global transaction) applies 1-2 actions chosen from: change a written column, change an unwritten column, delete the row, re-insert a deleted key (same or other values), restore the before value, nothing; then the coordinator rolls back; judged per branch by a reference model of the three-way comparison over the branch's undo items (per statement and row kind, newest first) on the state the rollback transaction found; distinct = (row kinds, verdict, restored, foreign action set)",
+		Assume: atAssume}
 }
